@@ -391,8 +391,10 @@ def r5_all_children_pushed(ctx, rule):
     # ... and they are the children of the item popped in THIS call, pushed before the call returns: the emptiness test of the next
     # call must see them (seed C17-fb expanded the previous item lazily, after `if len(self.p_queue) == 0: return None` - when the
     # item popped last was the only heap entry and still has children, the queue reports exhaustion and the tail is never emitted)
+    def _is_pop(v):
+        return isinstance(v, ast.Call) and call_name(v) == 'heapq.heappop'
     pops = [st for st in nfn.body if isinstance(st, ast.Assign) and len(st.targets) == 1 and isinstance(st.targets[0], ast.Name)
-            and isinstance(st.value, ast.Call) and call_name(st.value) == 'heapq.heappop']
+            and (_is_pop(st.value) or (isinstance(st.value, ast.Attribute) and st.value.attr == 'pt_item' and _is_pop(st.value.value)))]
     nstores = stores_in(nfn)
     for n in walk_local(nfn):
         if isinstance(n, ast.For) and isinstance(n.iter, ast.Call) and call_name(n.iter) == 'self.pcfg.find_children' and n.iter.args:
@@ -402,7 +404,8 @@ def r5_all_children_pushed(ctx, rule):
             if len(pops) != 1:
                 ok = False
                 ctx.unk(rule, nq, 'expected one top-level `x = heapq.heappop(..)` in next(), found %d' % len(pops))
-            elif U(arg) == pops[0].targets[0].id + '.pt_item':
+            elif U(arg) == pops[0].targets[0].id + ('.pt_item' if _is_pop(pops[0].value) else '') or \
+                    (not _is_pop(pops[0].value) and U(arg) == U(pops[0].value)):
                 if n not in nfn.body or nfn.body.index(n) < nfn.body.index(pops[0]):
                     ok = False
                     ctx.unk(rule, nq, 'the loop that pushes the children is not an unconditional statement of next() after the pop')
